@@ -156,7 +156,9 @@ func c19Run(in c19Input) (res c19Result, coqTrace []string) {
 			sr = st
 		}
 		if err != nil {
-			dp.Net.Note(id, "done-err")
+			if !dp.Net.IsStuck() { // not the network giving up at the end of the experiment
+				dp.Net.Note(id, "done-err")
+			}
 			dp.Net.End(id).Close()
 			return false
 		}
@@ -180,7 +182,9 @@ func c19Run(in c19Input) (res c19Result, coqTrace []string) {
 			}
 			if err != nil && tk.ErrClass(err) != "timeout" {
 				res.CErr = "read:" + tk.ErrClass(err)
-				dp.Net.Note(0, "app-err")
+				if !dp.Net.IsStuck() {
+					dp.Net.Note(0, "app-err")
+				}
 				return
 			}
 			if err != nil {
@@ -205,7 +209,9 @@ func c19Run(in c19Input) (res c19Result, coqTrace []string) {
 			}
 			if err != nil && tk.ErrClass(err) != "timeout" {
 				res.SErr = "read:" + tk.ErrClass(err)
-				dp.Net.Note(1, "app-err")
+				if !dp.Net.IsStuck() {
+					dp.Net.Note(1, "app-err")
+				}
 				return
 			}
 			if err != nil {
@@ -270,7 +276,7 @@ func c19AddCase(out *emit.Out, scenario string, in c19Input) {
 	ecdhe := in.Suite == 0xe011 || in.Suite == 0xe051
 	out.Add(emit.Case{Scenario: scenario, Trivial: len(in.Faults) == 0, Input: in, Direct: direct,
 		Observed: r,
-		Coq: fmt.Sprintf("FaultCase (mkCfg %s %s %s) [%s] %s %s %s %s %s [%s]", emit.Bool(in.Resume), emit.Bool(in.Auth >= 1 || ecdhe), emit.Bool(in.TieFlip),
+		Coq: fmt.Sprintf("%s (mkCfg %s %s %s) [%s] %s %s %s %s %s [%s]", map[bool]string{false: "FaultCase", true: "TraceCase"}[strings.HasPrefix(scenario, "long-")], emit.Bool(in.Resume), emit.Bool(in.Auth >= 1 || ecdhe), emit.Bool(in.TieFlip),
 			strings.Join(fs, "; "), emit.Bool(r.COk), emit.Bool(r.SOk), emit.Bool(r.Agree), emit.Bool(r.Pong), emit.Bool(r.Ping), strings.Join(tr, "; "))})
 }
 
@@ -326,6 +332,32 @@ func runC19(p params) error {
 				in.TieFlip = tie
 				c19AddCase(out, "k1-"+f.Kind, in)
 			}
+		}
+	}
+	// directed scripts
+	for _, cfg := range cfgs[:4] {
+		for _, tie := range []bool{false, true} {
+			in := cfg
+			in.TieFlip = tie
+			// a HelloVerifyRequest that arrives again (late) while the ServerHello is awaited
+			in.Faults = []c19Fault{{Dir: 1, Idx: 0, Kind: "delay", Ms: 150}, {Dir: 1, Idx: 2, Kind: "drop"}}
+			c19AddCase(out, "k2-late-hello-verify", in)
+			in.Faults = []c19Fault{{Dir: 1, Idx: 0, Kind: "dup"}, {Dir: 1, Idx: 1, Kind: "drop"}}
+			c19AddCase(out, "k2-dup-hello-verify", in)
+			// the same flight lost again and again: the timeout doubles up to the maximum and stays there.
+			// More faults than the application's patience covers: only the trace is compared ("long-").
+			var fs []c19Fault
+			for i := 0; i < 7; i++ {
+				fs = append(fs, c19Fault{Dir: 1, Idx: 1 + i, Kind: "drop"})
+			}
+			in.Faults = fs
+			c19AddCase(out, "long-server-flight-lost-7-times", in)
+			fs = nil
+			for i := 0; i < 7; i++ {
+				fs = append(fs, c19Fault{Dir: 1, Idx: 2 + i, Kind: "drop"})
+			}
+			in.Faults = fs
+			c19AddCase(out, "long-last-server-flight-lost-7-times", in)
 		}
 	}
 	// k = 2: exhaustive in the thorough tier, sampled otherwise; k = 3 (and delays of other lengths): sampled
